@@ -117,3 +117,12 @@ func init() {
 		Assume: append([]string{"math/rand maps raw source values to Intn/Shuffle results as in go1.23 (Int31n/int31n)"}, schedAssume...),
 	}
 }
+
+func init() {
+	cfgs["C08"] = checkCfg{
+		Variant: "sched", Validate: false,
+		Budget: dur(170, 1700),
+		Rule:   "(A) every program of the shared semantic families that ends in an uncaught throw or a fatal error: the interrupt span on VM and interpreter is consistent with the file text (line/column/index agree, start <= end, inside the text), is not the whole-file position and lies within the culprit known from the IR printer (the throw call / the failing index or division expression); (B) 14 single-fault programs x 4 layouts (leading comments, unicode, block comment): the first error diagnostic lies within the culprit; (C) every base text of the printer/fuzzer/determinism inputs with ONE edit (delete, insert @, quote, brace, newline, non-ASCII letter, truncate) at every 3rd (quick) / every (thorough) character: every syntax error and diagnostic has a consistent span and Error.Display / Diagnostic.Display render without panic; distinct = distinct (kind, message/span) records",
+		Assume: schedAssume,
+	}
+}
